@@ -580,8 +580,9 @@ class Rule(MethodWIGM):
                 ##     calculated to four (4) decimal places, ignoring any remainder.
 
                 surplus = high_candidate.vote - E.quota
+                fraction = surplus / high_candidate.vote    # surplus fraction of a vote, to four decimal places
                 for b in (b for b in E.ballots if b.topRank == high_candidate.cid):
-                    b.weight = (b.weight * surplus) / high_candidate.vote
+                    b.weight = fraction * b.weight          # transfer value: surplus fraction times current value
                     transfer(b)
                 high_candidate.vote = E.quota
                 E.surplus = sum([c.surplus for c in C], V0)
